@@ -752,6 +752,8 @@ class ProcessStatus:
         :return: True if the process is not defined anywhere anymore.
         """
         del self.info_map[identifier]
+        # NOTE: the process may still be listed there (e.g. last event lost), which would break the next status update
+        self.running_identifiers.discard(identifier)
         return self.info_map == {}
 
     def update_status(self, identifier: str, new_state: ProcessStates) -> None:
